@@ -19,7 +19,6 @@ structure Sess where
   it  : DList.Iter := {}
   zit : DList.ZipIter := {}
   sit : LSeq.Cursor := {}
-  dflt : List Bool := [false, false, false, false]   -- slot built on the C library allocator: it cannot be refused
 
 def fmtPtr (n : Nat) : Ptr → String
   | none => "-"
@@ -191,12 +190,7 @@ def iterStep (s : Sess) (c : Cmd) (m : Mem) : Sess × String × String :=
 /-- returns the new session, the spec line and the model line -/
 def step (s : Sess) (c : Cmd) : Sess × String × String :=
   let k := c.nat "o" 0
-  let s := if c.op == "new_default" && (s.model.getD k none).isNone then { s with dflt := s.dflt.set k true }
-           else if c.op == "new" && (s.model.getD k none).isNone then { s with dflt := s.dflt.set k false } else s
-  -- a derived list inherits the allocator of its source
-  let s := if c.op.startsWith "mk_" && (s.model.getD (c.nat "to" 1) none).isNone then { s with dflt := s.dflt.set (c.nat "to" 1) (s.dflt.getD k false) } else s
-  let useK := if c.op.startsWith "it_" || c.op.startsWith "dit_" || c.op.startsWith "zit_" then s.itO else k
-  let m := s.mem.begin (if s.dflt.getD useK false then [] else c.sched)
+  let m := s.mem.begin c.sched
   let from_ := c.nat "from" 1
   let to := c.nat "to" 1
   let v := c.arg 0
@@ -209,7 +203,7 @@ def step (s : Sess) (c : Cmd) : Sess × String × String :=
     match getM s k with
     | some _ => fin1 { s with mem := m } "st=- busy"
     | none =>
-      let r := DList.new m
+      let r := DList.new (if c.op == "new_default" then .libc else .conf) m
       let sx11 := setM s k r.2.1
       let s' := { sx11 with mem := (r.2.2) }
       let s' := setS s' k (if refused then none else some [])
@@ -290,7 +284,7 @@ def step (s : Sess) (c : Cmd) : Sess × String × String :=
       let q : Stat × Option (List Nat) := if q.1 == .ok && refused then (.errAlloc, none) else q
       let h (st : Stat) (o : Option (List Nat)) := match o with | some xs => s!"{fmtStat st} arr={fmtList xs}" | none => fmtStat st
       -- the harness (the caller) releases the array it was handed
-      fin { s with mem := if r.1 == .ok then r.2.2.free else r.2.2 } (h q.1 q.2) (h r.1 r.2.1)
+      fin { s with mem := if r.1 == .ok then r.2.2.freeT l.triple else r.2.2 } (h q.1 q.2) (h r.1 r.2.1)
     | "foreach" => fin s s!"st=- cb={fmtList a}" s!"st=- cb={fmtList (DList.foreach l)}"
     | "reduce" =>
       let r := DList.reduce LSeq.redF l m
@@ -306,7 +300,8 @@ def step (s : Sess) (c : Cmd) : Sess × String × String :=
       let q : Stat × List Nat := if q.1 == .ok && refused then (.errAlloc, a) else q
       fin (setMS s k r.2.1 q.2 r.2.2) (fmtStat q.1) (fmtStat r.1)
     | "sort_in_place" =>
-      fin1 (setMS s k (DList.sortInPlaceC (pickCmp c) l) (LSeq.stableSort (pickCmp c) a) m) "st=-"
+      let r := DList.sortInPlaceC (pickCmp c) l m
+      fin1 (setMS s k r.1 (LSeq.stableSort (pickCmp c) a) r.2) "st=-"
     | "mk_sub" | "mk_copy_shallow" | "mk_copy_deep" | "mk_filter" =>
       if (getM s to).isSome || to == k then fin1 s "st=- busy" else
       let r := if c.op == "mk_sub" then DList.sublist l (c.nat "b" 0) (c.nat "e" 0) m
